@@ -3,6 +3,9 @@
 (* Trace validation of real render calls against Session.tla.               *)
 (* Events (global order = sequence number taken under the recorder's lock): *)
 (*   Begin    prog (thread -> jobs), K, F                                   *)
+(*   Build    t, job, what            a build step of a pipeline observed   *)
+(*                                    step by step (merge_models, pair      *)
+(*                                    comparison, group merge)              *)
 (*   CtxEnter t, job                  Context.__enter__                     *)
 (*   Read     t, job, seen            AbsoluteModelRef.to_typing_code: the  *)
 (*                                    job whose mapping the thread saw      *)
@@ -27,16 +30,19 @@ TThreads == {Batch.threads[i] : i \in DOMAIN Batch.threads}
 TJobs == DOMAIN Batch.K
 TK == Batch.K
 TF == Batch.F
+TB == Batch.B
 TProgSet == {}
 
 Expect(ev) ==
-  CASE ev.ev = "CtxEnter" -> ev.t \in Threads /\ Active(ev.t) /\ pos[ev.t] = 0 /\ Job(ev.t) = ev.job
+  CASE ev.ev = "CtxEnter" -> ev.t \in Threads /\ Active(ev.t) /\ pos[ev.t] = 0 /\ Job(ev.t) = ev.job /\ built[ev.t] = B[Job(ev.t)]
+    [] ev.ev = "Build"    -> ev.t \in Threads /\ Active(ev.t) /\ pos[ev.t] = 0 /\ Job(ev.t) = ev.job /\ built[ev.t] < B[Job(ev.t)]
     [] ev.ev = "Read"     -> ev.t \in Threads /\ Active(ev.t) /\ pos[ev.t] >= 1 /\ pos[ev.t] <= K[Job(ev.t)] /\ ~Fails(ev.t)
                              /\ ev.seen = ctx[Slot(ev.t)]
     [] ev.ev = "CtxExit"  -> ev.t \in Threads /\ Active(ev.t) /\ pos[ev.t] >= 1 /\ (pos[ev.t] = K[Job(ev.t)] + 1 \/ Fails(ev.t))
     [] OTHER -> TRUE
 ModelStep(ev) ==
   CASE ev.ev = "CtxEnter" -> CtxEnter(ev.t)
+    [] ev.ev = "Build"    -> BuildStep(ev.t)
     [] ev.ev = "Read"     -> RenderField(ev.t)
     [] ev.ev = "CtxExit"  -> CtxExit(ev.t)
     [] OTHER -> UNCHANGED vars
@@ -65,6 +71,7 @@ TInit == /\ tid \in DOMAIN Traces /\ l = 2 /\ verdict = "ok" /\ drift = 0 /\ liv
          /\ ctx = [s \in (IF Shared THEN {"all"} ELSE Threads) |-> "none"]
          /\ old = [t \in Threads |-> "none"] /\ pos = [t \in Threads |-> 0] /\ cur = [t \in Threads |-> 1]
          /\ seen = [t \in Threads |-> <<>>] /\ done = [t \in Threads |-> <<>>] /\ sched = <<>>
+         /\ built = [t \in Threads |-> 0] /\ memo = [s \in (IF Shared THEN {"all"} ELSE Threads) |-> "none"]
 Step == /\ verdict = "ok" /\ l # 0 /\ l <= Len(Events)
         /\ LET cs == Clauses(Ev) f == FirstFailing(cs) IN
            /\ verdict' = f /\ live' = live \cup LiveOf(cs)
